@@ -13,4 +13,5 @@ INIT Init
 NEXT Next
 CHECK_DEADLOCK FALSE
 VIEW View
+CONSTRAINT Sequential
 INVARIANTS G04_NoRegress
